@@ -159,12 +159,16 @@ class BuiltinsMixin(AccessMixin):
         if isinstance(v, (SymAny, Unknown)):
             return self.decide(self.describe_cond(node), node, frame)
         kind = self.kind_of(v)
+        tnames = set(ty.name for ty in types if isinstance(ty, ClassVal) and ty.builtin)
+        if {"bytes", "bytearray"} <= tnames and isinstance(v, (View, SymBytes, Buf)) and getattr(v, "pytype", None) in (None, "bytes", "bytearray"):
+            return True         # a byte buffer is one or the other
         for ty in types:
             if isinstance(ty, ClassVal):
                 if ty.builtin:
                     if ty.name == kind or (ty.name == "int" and kind == "bool") or ty.name == "object":
                         return True
-                    if ty.name in ("bytes", "bytearray") and kind == "bytearray" and isinstance(v, (View, SymBytes)):
+                    if ty.name in ("bytes", "bytearray") and kind == "bytearray" and isinstance(v, (View, SymBytes)) \
+                            and getattr(v, "pytype", None) is None:
                         return self.decide(self.describe_cond(node), node, frame)
                 if isinstance(v, Instance) and v.cls.is_subclass(ty):
                     return True
@@ -522,7 +526,10 @@ class BuiltinsMixin(AccessMixin):
                 return v.cls
             if isinstance(v, (Unknown, SymAny)):
                 return TypeOf(SymStr(("typename", self.name_of(v))))
-            return TypeOf(self.kind_of(v))
+            k = self.kind_of(v)
+            if k in self.bclasses and k in ("int", "bool", "str", "bytes", "bytearray", "list", "dict", "tuple", "set", "float"):
+                return self.bclasses[k]         # `type(x) is int` etc. compare with the builtin class itself
+            return TypeOf(k)
         return Unknown("type() with 3 arguments")
 
     # ------------------------------------------------------------------
@@ -552,7 +559,7 @@ class BuiltinsMixin(AccessMixin):
                 return I.mk("dict.items", lambda a, k, n, f: DictView(obj, "items"))
             if name == "get":
                 def get(a, k, n, f):
-                    key = norm_int(a[0])
+                    key = norm_int(I.hash_check(a[0], n, f))
                     dflt = a[1] if len(a) > 1 else None
                     if isinstance(key, (Sym, SymAny, SymStr, Unknown)):
                         return Unknown("dict.get with dynamic key")
